@@ -519,8 +519,15 @@ def _session_format(ctx: Ctx, helpers):
                 and isinstance(augs[0].value, ast.Name) and augs[0].value.id == vararg):
             ctx.fail(cons + "#optional", f.loc(), "optional fields are not appended after the "
                      "four fixed fields")
-    elif isinstance(arg, ast.List):
+    elif isinstance(arg, (ast.List, ast.Tuple)):
         lst = arg
+        # [a, b, c, d, *optional]: the optional fields unpacked behind the four fixed ones
+        vararg = f.node.args.vararg.arg if f.node.args.vararg else None
+        if lst.elts and isinstance(lst.elts[-1], ast.Starred):
+            if not (isinstance(lst.elts[-1].value, ast.Name) and lst.elts[-1].value.id == vararg):
+                ctx.fail(cons + "#optional", f.loc(), "optional fields are not appended after the "
+                         "four fixed fields")
+            lst = ast.List(elts=list(lst.elts[:-1]), ctx=ast.Load())
     if lst is None or len(lst.elts) != 4:
         ctx.fail(cons, f.loc(joins[0]), "the fixed part of a session id must be exactly "
                  "[identity, base, high32, low32]")
@@ -550,8 +557,22 @@ def _session_format(ctx: Ctx, helpers):
         okb = False
         if isinstance(src, ast.Call) and isinstance(src.func, ast.Attribute) and src.func.attr == "hex":
             tb = src.func.value
+            recv_ = A.dotted(tb.func.value) if isinstance(tb, ast.Call) and isinstance(tb.func, ast.Attribute) else ""
+            if recv_ and recv_ != f"self.{SEQ}" and isinstance(tb.func.value, ast.Name):
+                # a copy of the counter taken while the lock is held (formatted after the lock
+                # has been released): bound once, from self.<counter>, inside a `with` block
+                par_ = A.parents(f.node)
+                cdefs = [n for n in A.walk_no_nested(f.node) if isinstance(n, (ast.Assign, ast.AnnAssign))
+                         and getattr(n, "value", None) is not None
+                         and any(isinstance(t, ast.Name) and t.id == recv_ for t in A.store_targets(n))]
+                if len(cdefs) == 1 and A.dotted(cdefs[0].value) == f"self.{SEQ}":
+                    x_ = cdefs[0]
+                    while x_ in par_ and not isinstance(par_[x_], ast.With):
+                        x_ = par_[x_]
+                    if x_ in par_ and "lock" in ast.unparse(par_[x_].items[0].context_expr).lower():
+                        recv_ = f"self.{SEQ}"
             if isinstance(tb, ast.Call) and isinstance(tb.func, ast.Attribute) \
-                    and tb.func.attr == "to_bytes" and A.dotted(tb.func.value) == f"self.{SEQ}":
+                    and tb.func.attr == "to_bytes" and recv_ == f"self.{SEQ}":
                 vals = [model.try_fold(a, helpers) for a in tb.args] + \
                        [model.try_fold(k.value, helpers) for k in tb.keywords]
                 okb = vals[:1] == [8] and "big" in vals
